@@ -216,7 +216,7 @@ sequences of 2-5 datagrams of random entries and lengths. Non-trivial = B is a s
     ctx.section = "every-truncation".into();
     ctx.drive_list(&part, cases, stride == 1);
     ctx.section = "random-sequences".into();
-    let n = ctx.tier.pick(30_000u64, 400_000);
+    let n = ctx.tier.pick(30_000u64, 1_500_000);
     ctx.drive_proptest(&part, random_strategy(), n, 300);
     ctx.section.clear();
 }
